@@ -359,6 +359,12 @@ static unsigned message_name_get(const unsigned char *buf,
                 name_max > name_len ? name_max - name_len : 0);
             if (rc == 0)
                 return 0;
+            /*
+             * The pointer led to the root name only: drop the '.' appended
+             * after the last label, like for an uncompressed name.
+             */
+            if (name != NULL && name_len > 0 && name[name_len] == '\0')
+                name[name_len - 1] = '\0';
             /* Pointer is always the last. */
             break;
 
